@@ -144,31 +144,6 @@ def new_coords(old, new):
     return out
 
 
-def expected_resize(old, new, S, dval):
-    """what a resize must produce: entries of retained parameters carried to their new positions, 1/lambda on the diagonal of
-    new coordinates, zeros elsewhere"""
-    o, n_new = dict(map(tuple, old)), sum(n for _, n in new)
-    start_old, i = {}, 0
-    for k, n in old:
-        start_old[k] = i
-        i += n
-    src, i = [None] * n_new, 0
-    for k, n in new:
-        if k in o:
-            for t in range(min(n, o[k])):
-                src[i + t] = start_old[k] + t
-        i += n
-    S = np.asarray(S, dtype=np.float64)
-    E = np.zeros((n_new, n_new))
-    for a in range(n_new):
-        for b in range(n_new):
-            if src[a] is not None and src[b] is not None:
-                E[a, b] = S[src[a], src[b]]
-            elif a == b and src[a] is None:
-                E[a, b] = dval
-    return E
-
-
 def op_kind(op, rec, lam):
     """how an op of a history acts on the confidence matrix, judged from what was observed:
     'hook'   — a mutation after which sigma_inv IS the freshly initialised eye/lambda (the init_params hook ran);
